@@ -107,13 +107,13 @@ class P05(SessionPlan):
             "non-trivial = at least one publish Deferred outcome or no-op acknowledgement was judged; distinct by (config, executed step list)")
 
     def required_counters(self, tier):
-        return {"success/qos1": 100, "success/qos2": 100, "qos0": 100, "noop_acks/dupack": 50, "noop_acks/stray": 50, "endcheck": 100}
+        return {"success/qos1": 100, "success/qos2": 100, "qos0": 100, "noop_acks/dupack": 50, "noop_acks/stray": 50, "noop_acks/cross": 50, "endcheck": 100}
 
     def extra_cases(self, tier, seed):
         alpha = [("pub", 0, 0), ("pub", 0, 1), ("pub", 0, 2), ("ack", 0, "PUBACK", "old"), ("ack", 0, "PUBACK", "new"),
                  ("ack", 0, "PUBREC", "old"), ("ack", 0, "PUBCOMP", "old"), ("dupack", 0, "PUBACK"), ("dupack", 0, "PUBCOMP"),
                  ("dupack", 0, "PUBREC"), ("stray", 0, "PUBACK"), ("stray", 0, "PUBCOMP"), ("early", 0, "PUBCOMP"), ("tick",),
-                 ("setwin", 0, 2)]
+                 ("setwin", 0, 2), ("cross", 0, "PUBACK"), ("cross", 0, "PUBREC")]
         depth = 4 if tier == "quick" else 5
         return sweep_cases("sweep", cfgs(("pubsub",), ("sync",)), connected(), alpha, depth)
 
@@ -167,7 +167,8 @@ class P07(SessionPlan):
         alpha = [("sub", 0, "str", 1, 1), ("sub", 0, "tuple", 1, 2), ("sub", 0, "list", 3, 0), ("unsub", 0, "str", 1),
                  ("unsub", 0, "list", 2), ("ack", 0, "SUBACK", "old"), ("ack", 0, "SUBACK", "new", [0x80, 1, 2, 0, 1]),
                  ("ack", 0, "UNSUBACK", "new"), ("dupack", 0, "SUBACK"), ("stray", 0, "UNSUBACK"), ("stray", 0, "SUBACK"),
-                 ("setwin", 0, 1), ("setwin", 0, 3), ("tick",), reconnect(0, False), reconnect(0, True)]
+                 ("setwin", 0, 1), ("setwin", 0, 3), ("tick",), reconnect(0, False), reconnect(0, True),
+                 ("cross", 0, "SUBACK"), ("cross", 0, "UNSUBACK")]
         depth = 3 if tier == "quick" else 4
         return sweep_cases("sweep", cfgs(("pubsub", "sub"), ("sync",)), connected(clean=False, win=2), alpha, depth)
 
@@ -390,10 +391,11 @@ class P14(SessionPlan):
                ("sub", 0, "list", 2, 0), ("unsub", 0, "str", 1), ("unsub", 0, "list", 2), ("disconnect", 0)]
         pkts = [("connack", 0, 0, False), ("connack", 0, 3, False), ("pingresp", 0), ("stray", 0, "SUBACK"), ("stray", 0, "UNSUBACK"),
                 ("inpub", 0, 0), ("inpub", 0, 1), ("inpub", 0, 2), ("inrel", 0, "unknown"), ("stray", 0, "PUBACK"),
-                ("stray", 0, "PUBREC"), ("stray", 0, "PUBCOMP")]
+                ("stray", 0, "PUBREC"), ("stray", 0, "PUBCOMP"), ("preack", 0, "PUBACK"), ("preack", 0, "PUBREC")]
         states = {
             "idle": [("build", 0)],
             "connecting": [("build", 0), ("connect", 0, True, 0, 4)],
+            "connecting-busy": [("build", 0), ("setwin", 0, 3), ("connect", 0, False, 0, 3), ("pub", 0, 1), ("pub", 0, 2)],
             "connected": connected(),
             "connected-busy": connected(win=3) + [("pub", 0, 1), ("pub", 0, 2), ("sub", 0, "str", 1, 1), ("unsub", 0, "str", 1)],
             "refused": [("build", 0), ("connect", 0, True, 0, 4), ("connack", 0, 2, False)],
@@ -607,5 +609,7 @@ class P18(SessionPlan):
         depth = 3 if tier == "quick" else 4
         cs = [Cfg(profile=p, model="tcp", close_delay=d, re_pub_on_fail=r) for p in ("pubsub", "pub", "sub") for d in (0.0, 20.0) for r in (False, True)]
         cs += [Cfg(profile="pubsub", model="sync", re_pub_on_fail=True)]
+        cs += [Cfg(profile="pubsub", model=m, close_delay=5.0, re_disc_on=w) for m in MODELS for w in ("ack", "suback", "onpublish", "connmade", "connected")]
+        alpha = alpha + [("ack", 0, "PUBACK", "old"), ("ack", 0, "SUBACK", "old"), ("inpub", 0, 1)]
         pre = connected(ka=5, win=2) + [("pub", 0, 1), ("pub", 0, 2), ("sub", 0, "str", 1, 0)]
         return sweep_cases("closing-sweep", cs, pre, alpha, depth)
